@@ -39,7 +39,8 @@ let () = register "ENC" (fun t ->
       | K.VErr e -> "err:" ^ show_err e, 0 in
     let before = if fs = K.Missing then None else Some (n_of_int 0o644) in
     let mode = match K.mode_after before o with None -> "-" | Some m -> octal m in
-    let missing_levels = match parent with "nodir" -> 1 | "nodir2" -> 2 | _ -> 0 in
+    let missing_levels = match parent with "nodir" -> 1 | "dir" -> 0
+      | p when String.length p > 5 && String.sub p 0 5 = "nodir" -> int_of_string (String.sub p 5 (String.length p - 5)) | _ -> 0 in
     let dirs = if fs = K.Missing then K.created_dir_modes (n_of_int def) (nat_of_int missing_levels) else [] in
     Printf.sprintf "%s gen=%d file=%s kr=%s mode=%s dirs=%s" verdict gen (show_fs o.K.file_after) (show_kr o.K.kr_after) mode
       (if dirs = [] then "-" else String.concat "," (L.map octal dirs))
